@@ -46,6 +46,7 @@ package interp // import "golang.org/x/tools/go/ssa/interp"
 
 import (
 	"fmt"
+	"go/constant"
 	"go/token"
 	"go/types"
 	"log"
@@ -53,6 +54,7 @@ import (
 	"reflect"
 	"runtime"
 	"slices"
+	"strconv"
 	"strings"
 	"sync/atomic"
 	_ "unsafe"
@@ -944,7 +946,47 @@ func (i *interpreter) presetErrVar(g *ssa.Global, cell *value) bool {
 	if i.presetDone == nil {
 		i.presetDone = map[*ssa.Global]bool{}
 	}
+	if strings.HasPrefix(msg, "\x00reg|") {
+		// X = errorsmod.Register(codespace, code, "description"): run the real Register
+		parts := strings.SplitN(msg, "|", 4)
+		reg := i.prog.ImportedPackage("cosmossdk.io/errors")
+		if len(parts) != 4 || reg == nil || reg.Func("Register") == nil || reg.Func("Register").Blocks == nil {
+			return false
+		}
+		cs, ok1 := constArg(g.Pkg.Pkg, parts[1])
+		code, ok2 := constArg(g.Pkg.Pkg, parts[2])
+		if !ok1 || !ok2 || cs.Kind() != constant.String || code.Kind() != constant.Int {
+			return false
+		}
+		n, _ := constant.Uint64Val(code)
+		i.presetDone[g] = true
+		*cell = call(i, nil, token.NoPos, reg.Func("Register"), []value{constant.StringVal(cs), uint32(n), parts[3]})
+		return true
+	}
 	i.presetDone[g] = true
 	*cell = i.newError(msg, iface{})
 	return true
+}
+
+// constArg evaluates an identifier (a package-level constant) or a literal.
+func constArg(pkg *types.Package, txt string) (constant.Value, bool) {
+	if txt == "" {
+		return nil, false
+	}
+	if txt[0] == '"' {
+		if s, err := strconv.Unquote(txt); err == nil {
+			return constant.MakeString(s), true
+		}
+		return nil, false
+	}
+	if txt[0] >= '0' && txt[0] <= '9' {
+		if n, err := strconv.ParseUint(txt, 0, 64); err == nil {
+			return constant.MakeUint64(n), true
+		}
+		return nil, false
+	}
+	if c, ok := pkg.Scope().Lookup(txt).(*types.Const); ok {
+		return c.Val(), true
+	}
+	return nil, false
 }
